@@ -129,8 +129,62 @@ def to_record(call, out, tid):
            "user": call["terms"], "pi": pi, "inorder": bool(m.get("in_order", 0)), "tpos": [bool(T > 0) for T in m.get("Ts", [])],
            "init": m.get("init", []), "api": api, "api2": api2, "ev2_equal": bool(out.get("ev2_equal", False)),
            "ev": evs, "complete": True, "raised": out.get("raised", "") or out.get("raised2", ""), "badnum": badnum}
+    rec["kernel_only"] = False
     rec.update(mi)
     return rec
+
+
+def repo_test_records(so, wd, out):
+    """the repository's own annealer tests, run against the fresh build with the kernel trace on (prefix of each call)"""
+    import subprocess
+    import sys
+    outp = os.path.join(wd, "testtrace.ndjson")
+    env = dict(os.environ)
+    env.update({"QV_SO": so, "QV_TESTTRACE_OUT": outp, "QV_TESTTRACE_MAX": "400", "QV_TESTTRACE_CALLS": "150", "PYTHONPATH": common.VERIF, "PYTHONHASHSEED": "0"})
+    p = subprocess.run([sys.executable, "-m", "pytest", "tests/sim/test_anneal.py", "-q", "-p", "harness.qv_test_plugin", "-p", "no:cacheprovider",
+                        "-x", "--timeout=900"], cwd=common.REPO, env=env, stdout=subprocess.PIPE, stderr=subprocess.STDOUT, text=True)
+    out.set("repo_tests_under_trace", p.stdout.strip().splitlines()[-1][:120] if p.stdout.strip() else "no output")
+    recs = []
+    if not os.path.exists(outp):
+        return recs
+    for line in open(outp):
+        o = json.loads(line)
+        m = o["marshal"]
+        mi = ac.marshal_ints(m, 4)
+        evs, why = ac.parse_events(o["ev"], 4)
+        if mi is None or why or mi["N"] > 40:
+            continue
+        for e in evs:
+            e.pop("u_ok", None)
+        N = mi["N"]
+        # the hook stops writing step lines after TRACE_MAX but still writes the anneal boundaries: keep the events up to the
+        # first anneal whose steps are not all there
+        keep, cnt = len(evs), 0
+        for q, e in enumerate(evs):
+            if e["e"] == "A":
+                cnt = 0
+            elif e["e"] == "S":
+                cnt += 1
+            elif e["e"] == "E" and cnt != N * len(m["Ts"]):
+                keep = q
+                break
+        evs = evs[:keep]
+        nE = sum(1 for e in evs if e["e"] == "E")
+        api = []
+        for st, v in list(zip(o["ret_states"], o["ret_values"]))[:max(nE, 0)]:
+            val = ac.scaled(ac.hexfrac(v), 4)
+            api.append({"st": [[i, s] for i, s in enumerate(st)], "val": val if val is not None else -999999, "spin": True})
+        kt = ac.kernel_terms_from_marshal(m, 4)
+        tmax = max([e["t"] for e in evs if e["e"] == "S"] + [0]) + 2       # only the temperatures the recorded prefix reaches
+        if nE == 0:
+            m["Ts"] = m["Ts"][:tmax]
+        rec = {"tid": len(recs) + 1, "id": o["id"], "fn": "repo-test", "kind": "kernel", "den": 4, "matrix": True,
+               "user": [[sorted(k), v] for k, v in kt.items()], "pi": list(range(N)), "inorder": bool(m["in_order"]),
+               "tpos": [bool(T > 0) for T in m["Ts"]], "init": m["init"], "api": api, "api2": api, "ev2_equal": True, "ev": evs,
+               "complete": False, "raised": "", "badnum": "", "kernel_only": True}
+        rec.update(mi)
+        recs.append(rec)
+    return recs
 
 
 def validate(out, wd, recs, label):
@@ -225,6 +279,11 @@ def run(tier, out, replay=None):
                 for v in ru.viol_lines:
                     u = urecs[int(v[2]) - 1]
                     out.violation("Uniform", "Uniform " + u["what"], u, None)
+        if thorough and not replay:
+            trecs = repo_test_records(so, wd, out)
+            out.set("repo_test_kernel_calls_traced", len(trecs))
+            if trecs:
+                validate(out, wd, trecs, "repotests")
         # keep the call for replays
         out.assumptions += [
             "uniformity / independence of the PCG32 stream is assumed (variates only checked to lie in [0,1)); the distributional "
